@@ -531,6 +531,8 @@ pub struct PeerView {
     pub outstanding: VecDeque<(u32, u32, u32)>,
     pub all_requests: Vec<(u32, u32, u32)>,
     pub cancels: Vec<(u32, u32, u32)>,
+    /// requests that were outstanding when the client cancelled them (a real peer may already have the answer in flight)
+    pub cancelled_pending: VecDeque<(u32, u32, u32)>,
     pub pieces_received: Vec<(u32, u32, usize)>,
     pub keepalives: usize,
 }
@@ -555,6 +557,9 @@ impl PeerView {
                 }
                 RFrame::Cancel(i, b, l) => {
                     self.cancels.push((*i, *b, *l));
+                    if self.outstanding.contains(&(*i, *b, *l)) {
+                        self.cancelled_pending.push_back((*i, *b, *l));
+                    }
                     self.outstanding.retain(|r| r != &(*i, *b, *l));
                 }
                 RFrame::Piece(i, b, d) => self.pieces_received.push((*i, *b, d.len())),
